@@ -1,6 +1,7 @@
 package worker
 
 import (
+	"reflect"
 	"encoding/json"
 	"fmt"
 	"os"
@@ -158,6 +159,36 @@ func genC11(p *plan.Plan, r *plan.Rng, tier string) {
 				st.S1 = "shared-enc"
 			}
 			p.Sessions = append(p.Sessions, plan.Session{ID: id("S"), Steps: []plan.Step{mk, st}})
+		}
+	}
+	// documents of one shape with different content into fresh destinations of
+	// one type: long arrays first, then the same arrays with null elements (a
+	// null leaves a slot of the decoder's scratch space as the last call left it)
+	if r.Chance(1, 3) {
+		dt := pickType(r, decodeAllTypes)
+		if r.Bool() {
+			dt = []string{"SliceInt", "Ints", "Floats", "SliceSlice", "MapStrSlice", "SliceIface", "Big", "Wide", "SliceSmall", "ArrSmall2", "Nested"}[r.Intn(11)]
+			if typeMap[dt] == nil {
+				dt = "Big"
+			}
+		}
+		ti := lookupType(dt)
+		base := reshape(stdDoc(ti, int64(r.U64()>>8)), r, true, false)
+		ops := []string{"unmarshal", "unmarshal", "unmarshal_noescape", "unmarshal_ctx"}
+		for k := r.Range(2, 4); k > 0; k-- {
+			doc := base
+			if k%2 == 0 || r.Bool() {
+				doc = reshape(base, r, false, true)
+			}
+			st := plan.Step{Op: ops[r.Intn(len(ops))], T: dt, Doc: doc}
+			if r.Chance(1, 4) {
+				// the same through a Decoder
+				p.Sessions = append(p.Sessions, plan.Session{ID: id("n"), Steps: []plan.Step{
+					{Op: "dec_new", H: "nd", Reader: &plan.Reader{Data: doc}},
+					{Op: "dec_decode", H: "nd", T: dt}}})
+				continue
+			}
+			p.Sessions = append(p.Sessions, one(id("n"), st))
 		}
 	}
 	// the same long object graph encoded again after an encode of it failed
@@ -533,6 +564,41 @@ func genC14(p *plan.Plan, r *plan.Rng, tier string) {
 	if !quick {
 		nsweep = 48
 	}
+	if Variant == "plain" && i >= nsweep && i%4 == 3 {
+		// population independence: a batch of this binary's types, by name, here
+		// and in the binary with the other population
+		p.Mode = "typesweep"
+		p.Note = "a batch of types processed in two binaries with different type populations (plain, plain-pop): same observations"
+		names := sweepNames()
+		nb := (PlanCount("C14", tier) - nsweep) / 4
+		if nb < 1 {
+			nb = 1
+		}
+		chunk := len(names)/nb + 1
+		k := (i - nsweep) / 4
+		sw := &plan.Sweep{Cross: "plain-pop"}
+		for j := k * chunk; j < (k+1)*chunk && j < len(names); j++ {
+			sw.OnlyName = append(sw.OnlyName, names[j])
+		}
+		if len(sw.OnlyName) == 0 {
+			// more plans than batches: a random batch
+			for j := 0; j < 24; j++ {
+				sw.OnlyName = append(sw.OnlyName, names[r.Intn(len(names))])
+			}
+		}
+		// the boundary types of the window are part of every batch
+		for _, bt := range boundaryTypes(2) {
+			if bt.InPop {
+				t := bt.T
+				if t.Kind() == reflect.Ptr {
+					t = t.Elem()
+				}
+				sw.OnlyName = append(sw.OnlyName, qualName(t))
+			}
+		}
+		p.Sweep = sw
+		return
+	}
 	if i < nsweep || !(Variant == "inst" || Variant == "inst-race") {
 		p.Mode = "typesweep"
 		p.Note = "first use of the types listed in the binary's type table, in a seeded order, with reflect-created types in between"
@@ -545,6 +611,15 @@ func genC14(p *plan.Plan, r *plan.Rng, tier string) {
 			sw.Order = "random"
 			sw.Limit = r.Range(50, 400)
 			sw.Stride = 1
+		}
+		if i%3 == 2 && Variant != "pie" {
+			// placement adversary: many run-time descriptors whose addresses
+			// share their low 32 bits with the binary's own type window; all
+			// static types are processed (stride 1, no limit)
+			sw.Alias32 = true
+			sw.Reflect = 120
+			sw.Stride = 1
+			sw.Limit = 0
 		}
 		p.Sweep = sw
 		return
